@@ -200,24 +200,36 @@ func (fs *FS) Rename(oldname, newname string) error {
 		return &hackpadfs.LinkError{Op: "rename", Old: oldname, New: newname, Err: hackpadfs.ErrNotImplemented}
 	}
 
+	// every step's failure is reported as a rename failure naming both paths as the caller gave them
+	renameErr := func(err error) error {
+		switch e := err.(type) {
+		case nil:
+			return nil
+		case *hackpadfs.PathError:
+			err = e.Err
+		case *hackpadfs.LinkError:
+			err = e.Err
+		}
+		return &hackpadfs.LinkError{Op: "rename", Old: oldname, New: newname, Err: err}
+	}
 	oldFile, err := oldMount.Open(oldSubPath)
 	if err != nil {
-		return errInMount(err, oldPoint)
+		return renameErr(err)
 	}
 	defer func() { _ = oldFile.Close() }()
 	newFile, err := hackpadfs.OpenFile(newMount, newSubPath, hackpadfs.FlagWriteOnly|hackpadfs.FlagCreate|hackpadfs.FlagTruncate, oldInfo.Mode())
 	if err != nil {
-		return errInMount(err, newPoint)
+		return renameErr(err)
 	}
 	newFileWriter, ok := newFile.(io.Writer)
 	if !ok {
-		return &hackpadfs.LinkError{Op: "rename", Old: oldname, New: newname, Err: hackpadfs.ErrPermission}
+		return renameErr(hackpadfs.ErrPermission)
 	}
 	defer func() { _ = newFile.Close() }()
 	_, err = io.Copy(newFileWriter, oldFile)
 	if err != nil {
 		_ = hackpadfs.Remove(newMount, newSubPath)
-		return err
+		return renameErr(err)
 	}
-	return errInMount(hackpadfs.Remove(oldMount, oldSubPath), oldPoint)
+	return renameErr(hackpadfs.Remove(oldMount, oldSubPath))
 }
